@@ -333,3 +333,25 @@ META = {
         "assumptions": ASSUME_COMMON,
     },
 }
+
+
+from . import stateful  # noqa: E402
+
+_HIST_RULE = ("adaptive, replayable host-call histories: optional generated program (12%% seeded faults), then 6-35 calls chosen by "
+              "interpreter state from: %d boundary/command/malformed lines, generated statement lines, RUN/CONT/LIST/NEW, randomize with "
+              "boundary seeds, continue/break while running, replies/breaks while awaiting input, replace after NEW; distinct = distinct "
+              "call list; non-trivial = more than 5 calls") % len(stateful.BOUNDARY_LINES)
+
+META.update({
+    "C01": {"run": stateful.run_c01, "rule": _HIST_RULE + "; plus deep-nesting probes (6 shapes x 9 depths, 10..20000/100000) each in a fresh process",
+            "trusted_base": TB_COMMON, "assumptions": ASSUME_COMMON + ["native stack: a nesting depth of 64 fits the stack (probed at the cap boundary, not proved)"]},
+    "C16": {"run": stateful.run_c16, "rule": "20 cap-seeking programs (recursive GOSUB/FN, 34 FOR variables, DIM around 10000 cells, kind mismatches on every write path) + " + _HIST_RULE + "; invariant checked on the snapshot after EVERY call",
+            "trusted_base": TB_COMMON, "assumptions": ASSUME_COMMON},
+    "C10": {"run": stateful.run_c10, "rule": "generated program + random history (immediate assignments/DIM/FOR/GOSUB/READ/DEF/INPUT, RUN, CONT, GOTO, randomize, breaks while running, while awaiting input and right after a reply), then RUN, compared turn by turn (outcome, state, outputs, full snapshot) with RUN in a fresh interpreter holding the same program, generator state and flags; distinct = (program, history); non-trivial = non-empty history",
+            "trusted_base": TB_COMMON, "assumptions": ASSUME_COMMON},
+    "C11": {"run": stateful.run_c11, "rule": "fixed 12-line program or generated program, run for 0-24 turns to a random suspension point (idle/end, error, STOP, host break while running or awaiting input), one edit (add/replace/delete/rejected), snapshot comparison, then one probe (CONT/RETURN/NEXT/FN call/READ/GOTO)",
+            "trusted_base": TB_COMMON, "assumptions": ASSUME_COMMON},
+    "C18": {"run": stateful.run_c18, "rule": "randomize(seed) then 2-11 PRINT RND(arg) with arg in {1,0,-1,0.5,1000000,-0,-.001}; seeds: 10 boundary values (0, 2^33+-1, 2^43, 2^44, 2^63, 2^64-1) 40%, random 64-bit 36%, random < 2^33 24%; oracle = independent Python LCG + exact float comparison + range + generator state from the snapshot",
+            "trusted_base": TB_COMMON, "assumptions": ASSUME_COMMON,
+            "allowed_axioms": ["ClassicalDedekindReals.sig_forall_dec", "FunctionalExtensionality.functional_extensionality_dep"]},
+})
